@@ -61,6 +61,8 @@ type Machine struct {
 	initDone  map[*ssa.Package]bool
 	knownCur  string
 	allocLim  int
+	allocExplore int
+	inExploreSplit bool
 	maxAlloc  int
 	poolMode  int
 	poolPut   map[*Obj][]Val
@@ -211,6 +213,7 @@ func (m *Machine) resetPath() {
 	m.covers = map[string]bool{}
 	m.knownCur = ""
 	m.allocLim = 0
+	m.allocExplore = 0
 	m.maxAlloc = 0
 	m.poolMode = 0
 	m.poolPut = map[*Obj][]Val{}
@@ -543,6 +546,20 @@ func (m *Machine) concInt(t *Term, what string) int {
 	// already determined by earlier concretisations or assumptions on this path
 	if v, ok := m.peval(t); ok {
 		return int(sx(t.w, v))
+	}
+	if m.allocExplore > 0 && t.w >= 16 && !m.inExploreSplit {
+		// totality harnesses: values above the exploration bound are followed through ONE representative per path
+		m.inExploreSplit = true
+		big := Slt(Const(t.w, uint64(m.allocExplore)), t)
+		if m.branch(big) {
+			v := m.evalModel(t)
+			m.assume(Eq(t, Const(t.w, v)))
+			m.covers["large-count-representative"] = true
+		}
+		m.inExploreSplit = false
+		if v, ok := m.peval(t); ok {
+			return int(sx(t.w, v))
+		}
 	}
 	k := m.dec
 	m.atFrontier(k)
